@@ -285,6 +285,24 @@ m('c13-compressor-floor', 'C13', 'effect/compressor.rs',
   '(input - threshold).max(0.0)', '(input - threshold)',
   'A.singular|effect::compressor::Compressor|log', 'the -inf level of a silent sample is no longer floored')
 
+# ---------------------------------------------------------------- B.C13.linear / B.C13.silence (linearity typing)
+m('c13-linear-allpass-clip', 'C13', 'effect/reverb/all_pass.rs',
+  'let output = -input + buffer_output;', 'let output = (-input + buffer_output).clamp(-4.0, 4.0);',
+  'B.C13.linear|Reverb', 'a safety clamp inside the reverb (linear only below the clip level)')
+m('c13-linear-filter-square', 'C13', 'effect/filter.rs',
+  'let v3 = *frame - self.ic2eq;', 'let v3 = (*frame - self.ic2eq) * (1.0 - self.ic1eq.left * 0.001);',
+  'B.C13.linear|Filter', 'a state-dependent gain (signal times signal)')
+m('c13-linear-delay-gate', 'C13', 'effect/reverb/comb.rs',
+  '\t\tself.buffer[self.current_index] = input + self.filter_store * feedback;',
+  '\t\tself.buffer[self.current_index] = if input.abs() < 1.0e-6 { 0.0 } else { input } + self.filter_store * feedback;',
+  'B.C13.linear|Reverb', 'a noise gate on the comb input (branch on the signal)')
+m('c13-silence-dc', 'C13', 'effect/reverb/all_pass.rs',
+  'let output = -input + buffer_output;', 'let output = -input + buffer_output + 1.0e-20;',
+  'B.C13.silence|Reverb', 'an anti-denormal offset: silence in, not silence out (also affine, so not linear)')
+m('c13-silence-volume', 'C13', 'effect/volume_control.rs',
+  '*frame *= ', '*frame = *frame + Frame::from_mono(1.0e-30); *frame *= ',
+  'B.C13.silence|VolumeControl', 'a tiny offset before the gain')
+
 # ---------------------------------------------------------------- C15
 m('c15-range', 'C15', 'track/sub/spatial_builder.rs',
   '\t\tif !(self.min_distance < self.max_distance) {\n\t\t\treturn if distance < self.min_distance { 0.0 } else { 1.0 };\n\t\t}\n', '',
